@@ -1,1 +1,306 @@
-"""generators of term programs (filled in with the Terms model)"""
+"""
+Random term programs (shared by C02, C04, C05, C14, C16).
+
+`gen_program(rng, ...)` returns a `Program`: the real pyGAM `TermList` (compiled on a training matrix), the training
+and query matrices, and the token encoding of the compiled terms for the Lean driver (grammar in
+lean/PyGam/Drv/TermParse.lean).  The encoding is read back from the *public attributes of the real objects*
+(feature, n_splines, spline_order, basis, by, coding, lam, penalties, constraints, edge_knots_), so the
+model sees what the implementation says it is.
+"""
+from __future__ import annotations
+
+from dataclasses import dataclass, field
+from fractions import Fraction
+
+import numpy as np
+
+from harness import common
+
+PEN_NAMES = {None: 'none', 'auto': 'auto', 'derivative': 'derivative', 'l2': 'l2', 'none': 'none', 'periodic': 'periodic'}
+CON_NAMES = {None: 'none', 'none': 'none', 'convex': 'convex', 'concave': 'concave',
+             'monotonic_inc': 'monotonic_inc', 'monotonic_dec': 'monotonic_dec'}
+
+
+def q(x):
+    return common.q2s(common.f2q(float(x)))
+
+
+def _lamspec(term):
+    lam = list(np.atleast_1d(term.lam))
+    pens = list(term.penalties)
+    assert len(lam) == len(pens)
+    toks = [str(len(lam))]
+    for p, l in zip(pens, lam):
+        toks += [PEN_NAMES[p], q(l)]
+    return toks
+
+
+def _conspec(term):
+    cons = list(term.constraints)
+    return [str(len(cons))] + [CON_NAMES[c] for c in cons]
+
+
+def encode_marg(term):
+    name = term._name
+    if name == 'linear_term':
+        return ['L', str(term.feature)] + _lamspec(term)
+    if name == 'factor_term':
+        ek = term.edge_knots_
+        return ['F', str(term.feature), str(int(term.n_splines)), '1' if term.coding == 'dummy' else '0', q(ek[0]), q(ek[1])] + _lamspec(term)
+    if name == 'spline_term':
+        ek = term.edge_knots_
+        return ['S', str(term.feature), str(int(term.n_splines)), str(int(term.spline_order)),
+                '1' if term.basis == 'cp' else '0', str(-1 if term.by is None else int(term.by)), q(ek[0]), q(ek[1])] + _lamspec(term) + _conspec(term)
+    raise ValueError('cannot encode ' + name)
+
+
+def encode_term(term):
+    if term.isintercept:
+        return ['I']
+    if term.istensor:
+        toks = ['T', str(len(term._terms)), str(-1 if term.by is None else int(term.by))]
+        for t in term._terms:
+            toks += encode_marg(t)
+        return toks
+    return encode_marg(term)
+
+
+def encode_terms(termlist):
+    toks = [str(len(termlist))]
+    for t in termlist:
+        toks += encode_term(t)
+    return toks
+
+
+def uses_periodic_penalty(term):
+    """does the term (or a marginal) use the 'periodic' penalty (explicitly or via 'auto' on a cp basis)?"""
+    if term.isintercept:
+        return False
+    if term.istensor:
+        return any(uses_periodic_penalty(t) for t in term._terms)
+    for p in term.penalties:
+        if p == 'periodic':
+            return True
+        if p == 'auto' and term._name == 'spline_term' and term.basis == 'cp':
+            return True
+    return False
+
+
+@dataclass
+class Program:
+    terms: object                 # compiled TermList
+    X: np.ndarray                 # training matrix
+    Xq: np.ndarray                # query matrix (may extrapolate)
+    tokens: list
+    desc: dict = field(default_factory=dict)
+
+
+def _feature_kinds(rng, m):
+    """per feature: 'num' (continuous), 'cat' (consecutive integer codes), 'by' (any sign)"""
+    kinds = []
+    for j in range(m):
+        kinds.append(rng.choice(['num', 'num', 'cat', 'by']))
+    kinds[0] = 'num'
+    if m > 1:
+        kinds[1] = 'cat'
+    return kinds
+
+
+def gen_data(rng, n, kinds):
+    X = np.zeros((n, len(kinds)))
+    info = []
+    for j, k in enumerate(kinds):
+        if k == 'num':
+            lo = rng.choice([0.0, -3.5, 100.0, -1e3])
+            span = rng.choice([1.0, 4.0, 0.125, 1000.0])
+            # dyadic positions (exactly representable), both ends present
+            pos = [rng.randint(0, 1024) / 1024.0 for _ in range(n)]
+            pos[0], pos[1] = 0.0, 1.0
+            X[:, j] = lo + span * np.array(pos)
+            info.append(('num', lo, span))
+        elif k == 'cat':
+            ncat = rng.randint(2, 5)
+            base = rng.choice([0, 1, -2, 7])
+            codes = [rng.randint(0, ncat - 1) for _ in range(n)]
+            for c in range(ncat):
+                codes[c % n] = c     # every level present
+            X[:, j] = base + np.array(codes)
+            info.append(('cat', base, ncat))
+        else:
+            X[:, j] = np.array([rng.choice([-2.0, -0.5, 0.0, 1.0, 1.0, 2.5, rng.randint(-8, 8) / 4.0]) for _ in range(n)])
+            info.append(('by',))
+    return X, info
+
+
+def _safe_positions(rng, nrow, n_splines, order, cyclic, extrap):
+    """relative positions u that stay away from discontinuities of the basis"""
+    N = n_splines + (order if cyclic else 0)
+    cells = N - order
+    us = []
+    for _ in range(nrow):
+        if order == 0 or cyclic:
+            k = rng.randint(0, cells - 1)
+            u = (k + rng.choice([0.5, 0.25, 0.75])) / cells
+            if cyclic and extrap and rng.random() < 0.4:
+                u += rng.choice([-2, -1, 1, 3])
+        else:
+            u = rng.randint(0, 256) / 256.0
+            if extrap and rng.random() < 0.4:
+                u = rng.choice([-0.5, -2.25, 1.5, 3.75, -0.0625, 1.03125])
+        us.append(u)
+    return us
+
+
+def gen_program(rng, pygam_mod, n_rows=12, n_query=8, allow_constraints=True, allow_periodic_penalty=True,
+                max_terms=4, tensor_prob=0.35, extrap=True):
+    from pygam.terms import SplineTerm, LinearTerm, FactorTerm, TensorTerm, Intercept, TermList
+    m = rng.randint(3, 5)
+    kinds = _feature_kinds(rng, m)
+    X, info = gen_data(rng, n_rows, kinds)
+    num_feats = [j for j, k in enumerate(kinds) if k == 'num']
+    cat_feats = [j for j, k in enumerate(kinds) if k == 'cat']
+    by_feats = [j for j, k in enumerate(kinds) if k == 'by'] or num_feats
+
+    spline_cfg = {}   # feature -> list of (n_splines, order, cyclic) used, to place query points safely
+
+    def rand_lam():
+        return rng.choice([0.0, 0.6, 1.0, 2.5, 10.0, 0.015625, 100.0])
+
+    def mk_spline(as_marginal=False, cap=None):
+        feat = rng.choice(num_feats)
+        order = rng.choice([0, 1, 2, 3, 3, 4])
+        if cap is not None:
+            order = min(order, max(cap - 1, 0))
+        n_spl = rng.randint(order + 1, order + 6) if as_marginal else rng.choice([order + 1, order + 2, 6, 9, 12, 20])
+        if cap is not None:
+            n_spl = min(n_spl, cap)
+        n_spl = max(n_spl, order + 1)
+        basis = rng.choice(['ps', 'ps', 'cp'])
+        npen = rng.choice([1, 1, 2, 3])
+        pens = []
+        for _ in range(npen):
+            choices = ['auto', 'derivative', 'l2', None, 'none'] + (['periodic'] if allow_periodic_penalty else [])
+            pens.append(rng.choice(choices))
+        if not allow_periodic_penalty and basis == 'cp':
+            pens = [p if p != 'auto' else 'derivative' for p in pens]
+        lam = [rand_lam() for _ in range(npen)] if rng.random() < 0.7 else rand_lam()
+        cons = None
+        if allow_constraints and rng.random() < 0.5:
+            ncon = rng.choice([1, 1, 2])
+            cons = [rng.choice(['monotonic_inc', 'monotonic_dec', 'convex', 'concave', None, 'none']) for _ in range(ncon)]
+            if ncon == 1 and rng.random() < 0.5:
+                cons = cons[0]
+        by = rng.choice(by_feats) if rng.random() < 0.3 else None
+        ek = None
+        if rng.random() < 0.25:
+            lo, hi = X[:, feat].min(), X[:, feat].max()
+            ek = [float(lo - 0.25 * (hi - lo)), float(hi + 0.5 * (hi - lo))]
+        t = SplineTerm(feat, n_splines=n_spl, spline_order=order, lam=lam, penalties=pens if npen > 1 else pens[0],
+                       constraints=cons, basis=basis, by=by, edge_knots=ek)
+        spline_cfg.setdefault(feat, []).append((n_spl, order, basis == 'cp', ek))
+        return t
+
+    def mk_linear():
+        return LinearTerm(rng.choice(num_feats + by_feats), lam=rand_lam(), penalties=rng.choice(['auto', 'l2', None, 'none', 'derivative']) if False else rng.choice(['auto', 'l2', None, 'none']))
+
+    def mk_factor():
+        if not cat_feats:
+            return mk_linear()
+        return FactorTerm(rng.choice(cat_feats), lam=rand_lam(), penalties=rng.choice(['auto', 'l2', None]), coding=rng.choice(['one-hot', 'dummy']))
+
+    def mk_tensor():
+        k = rng.choice([2, 2, 3, 4])
+        cap = {2: 12, 3: 5, 4: 3}[k]     # keep the number of tensor coefficients <= ~150
+        margs = []
+        for _ in range(k):
+            r = rng.random()
+            if r < 0.6:
+                margs.append(mk_spline(as_marginal=True, cap=cap))
+            elif r < 0.8:
+                margs.append(mk_factor())
+            else:
+                margs.append(mk_linear())
+        by = rng.choice(by_feats) if rng.random() < 0.3 else None
+        return TensorTerm(*margs, by=by)
+
+    nterms = rng.randint(1, max_terms)
+    terms = []
+    for _ in range(nterms):
+        r = rng.random()
+        if r < tensor_prob:
+            terms.append(mk_tensor())
+        elif r < tensor_prob + 0.35:
+            terms.append(mk_spline())
+        elif r < tensor_prob + 0.5:
+            terms.append(mk_linear())
+        else:
+            terms.append(mk_factor())
+    with_intercept = rng.random() < 0.7
+    tl = TermList(*terms)
+    if with_intercept:
+        pos = rng.randint(0, len(tl))
+        tl = TermList(*(list(tl)[:pos] + [Intercept()] + list(tl)[pos:])) if rng.random() < 0.3 else tl + Intercept()
+
+    # training data: make spline features safe w.r.t. every configuration that uses them
+    for feat, cfgs in spline_cfg.items():
+        need_safe = [c for c in cfgs if c[1] == 0 or c[2]]
+        if need_safe:
+            # a common refinement: positions at odd multiples of 1/(2*L) where L = lcm of the cell counts is overkill;
+            # instead use positions k/997 + tiny offset: never on a uniform knot with <= 64 cells
+            lo, hi = X[:, feat].min(), X[:, feat].max()
+            pos = [(rng.randint(1, 995)) / 997.0 for _ in range(n_rows)]
+            pos[0], pos[1] = 0.0, 1.0
+            X[:, feat] = lo + (hi - lo) * np.array(pos)
+    tl.compile(X)
+
+    # query matrix
+    Xq = X[[rng.randrange(n_rows) for _ in range(n_query)]].copy()
+    for feat, cfgs in spline_cfg.items():
+        lo, hi = X[:, feat].min(), X[:, feat].max()
+        need_safe = [c for c in cfgs if c[1] == 0 or c[2]]
+        for i in range(n_query):
+            if need_safe:
+                u = rng.randint(1, 995) / 997.0
+                if extrap and all(c[2] for c in cfgs) and rng.random() < 0.3:
+                    u += rng.choice([-1, 1, 2])
+            else:
+                u = rng.randint(0, 256) / 256.0
+                if extrap and rng.random() < 0.35:
+                    u = rng.choice([-0.5, -2.25, 1.5, 3.75, -0.0625, 1.03125])
+            Xq[i, feat] = lo + (hi - lo) * u
+    for j, k in enumerate(kinds):
+        if k == 'by':
+            Xq[:, j] = np.array([rng.choice([-3.0, -1.0, 0.0, 0.5, 1.0, 2.0]) for _ in range(n_query)])
+    desc = dict(n_terms=len(tl), kinds=[t._name for t in tl], m_features=m,
+                tensor_sizes=[len(t._terms) for t in tl if t.istensor])
+    return Program(tl, X, Xq, encode_terms(tl), desc)
+
+
+def knot_safe(program):
+    """True when no query value of an order-0 / cyclic spline feature sits within 1e-6 (relative) of a knot of that term"""
+    tl, Xq = program.terms, program.Xq
+
+    def ok_term(t):
+        if t.isintercept:
+            return True
+        if t.istensor:
+            return all(ok_term(s) for s in t._terms)
+        if t._name != 'spline_term':
+            return True
+        order, n, cyc = int(t.spline_order), int(t.n_splines), t.basis == 'cp'
+        if order >= 1 and not cyc:
+            return True
+        lo, hi = float(min(t.edge_knots_)), float(max(t.edge_knots_))
+        if hi == lo:
+            return False
+        cells = (n + (order if cyc else 0)) - order
+        for x in Xq[:, t.feature]:
+            u = (common.f2q(x) - common.f2q(lo)) / (common.f2q(hi) - common.f2q(lo))
+            pos = u * cells
+            if abs(pos - round(pos)) < Fraction(1, 10 ** 6):
+                if not (u == 0 or u == 1):
+                    return False
+            if cyc and abs(u - round(u)) < Fraction(1, 10 ** 6) and not (u == 0 or u == 1):
+                return False
+        return True
+    return all(ok_term(t) for t in tl)
